@@ -79,3 +79,90 @@ prop(
          "cosine similarity value (sqrt, hash sets)"],
     oracle="accept-all rejects nothing; threshold rule value >= threshold; stop rule never before k routes",
 )
+
+prop(
+    "C11",
+    runs=[dict(crate="core", quick=["c11::q::"], thorough=["c11::q::", "c11::qi::", "c11::t::"])],
+    functions=["CompactOrderedHashMap::{empty, insert, get, get_index, get_pair, len, is_empty, contains_key, iter, indexed_iter}",
+               "CompactOrderedHashMapIter::next"],
+    bounds=("one insert(k, v) with k, v any usize from the valid pre-state of each representation: empty, One, Two, Three, Four, N5, N6, N7 "
+            "(pre-state keys concrete and distinct, table slot order scrambled, all values symbolic); table model capacity 8; unwind 40 (mem::swap of the enum in 8-byte chunks)"),
+    assumptions=[
+        "hook H1: under cfg(kani)+verif-models NEntries holds the fixed-capacity table model of util/verif_collections.rs instead of std HashMap (hashbrown cannot be executed by CBMC); the model is the contract of a map (finite partial function, replace on insert), insertion-ordered iteration",
+        "pre-state keys are concrete (keys enter the container code only through ==, so this is a symmetry argument, stated not proved); the inserted key is fully symbolic, covering hit at every position and miss",
+        "instantiation <EdgeId, VertexId> (the graph adjacency instantiation); <String, StateFeature> (state model) is covered through the state-model harnesses only where listed",
+        "histories longer than one step are covered inductively: every reachable representation up to 7 entries is a pre-state; more than 8 entries is outside the claim",
+    ],
+    out=["CompactOrderedHashMap::new with duplicate keys", "collect_features (std HashMap + serde_json)", "more than 8 entries"],
+    oracle="insertion-ordered map: miss appends at index old_len; hit keeps index, replaces value; old entries untouched; observers agree",
+)
+
+prop(
+    "C07",
+    runs=[dict(crate="core", quick=["c07::q::"], thorough=["c07::q::", "c07::t::"])],
+    functions=["CostModel::{traversal_cost, access_cost, cost_estimate} (built with the verification-only constructor CostModel::verif_from_parts)",
+               "cost_ops::{calculate_vehicle_costs, calculate_network_traversal_costs, calculate_network_access_costs}",
+               "CostAggregation::agg_iter (Sum, Mul)", "VehicleCostRate::map_value", "NetworkCostRate::{traversal_cost, access_cost}",
+               "Cost::{enforce_strictly_positive, enforce_non_negative}"],
+    bounds=("shapes concrete per harness: n = 1 (quick) and 2 (thorough) features; rate variant per feature in {Zero, Raw, Factor, Offset} at model level, + Combined[Factor,Offset] at kernel level (thorough); "
+            "network rate in {Zero, EdgeLookup(1 entry), EdgeEdgeLookup(1 entry)} (+ Combined, thorough); aggregation Sum / Mul. Symbolic: previous/next state any finite f64 in +-1e9, weights, factors, offsets in +-1e6, "
+            "surcharges in +-1e9, all edge ids any usize. Formula harnesses pin weight/factor/offset to per-instance constants. unwind 2-5 (loops over features and rate lists; recursion of Combined rates)"),
+    assumptions=[
+        "hook H2: CostModel::verif_from_parts (cfg(kani) only) fills the private fields directly; CostModel::new (by-name lookups in std HashMaps, zero-weight-sum rejection) is NOT covered",
+        "hook H1: lookup tables of NetworkCostRate are the fixed-capacity table model",
+        "model-level harnesses replace the recursive kernels VehicleCostRate::map_value and NetworkCostRate::{traversal_cost, access_cost} by non-recursive stubs that are exact for the leaf variants and refuse Combined (assume false); the real kernels are decided separately per shape (assume-guarantee). Reason: a rate read from the model's heap vectors has a discriminant CBMC cannot fold and the recursion is unrolled to the bound in every arm (5-17 GB, no verdict)",
+        "'equals weight x rated change' is decided to within 0.1 percent, with zero-weight / zero-rate contributions exactly zero and signs exact; bit-exact equality of products is a multiplier-equivalence SAT problem (no verdict)",
+        "Mul aggregation and n >= 3 features: positivity/finiteness only; linearity in the weights is not decided beyond sign/zero structure and the 0.1 percent formula",
+        "EdgeTraversal::total_cost() (access + (total - access)) is not covered here; see C03",
+        "costs that are positive but smaller than the 1e-10 floor are accepted (the property asks for strictly positive)",
+    ],
+    out=["CostModel::new", "Combined rates nested deeper than one level", "EdgeTraversal::total_cost floating-point absorption", "cost model services / JSON configuration in the app crate"],
+    oracle="finite and > 0 / >= 0; affine meaning of each rate shape; per-edge / per-turn table semantics; floor and clip rules",
+)
+
+prop(
+    "C17",
+    runs=[dict(crate="core", quick=["c17::q::"], thorough=["c17::q::", "c17::t::"])],
+    functions=["MultiSet::from", "MultiSet::next (Iterator)"],
+    bounds=("shape space enumerated exhaustively: 1..3 axes with 1..3 options each (39 shapes; 8 in the quick tier); element values symbolic (u8); "
+            "unwind prod(n_i)+4; each shape: prod(n_i)+2 calls of next()"),
+    assumptions=[
+        "the shape (axis count and lengths) is a concrete parameter per harness: symbolic Vec lengths are out of reach for CBMC; the solver contributes independence from the element values and panic freedom (index, overflow, bounds checks)",
+        "more than 3 axes or more than 3 options per axis are outside the claim",
+        "the JSON overlay of GridSearchPlugin::process (object clone / merge, removal of the grid section, pass-through without a grid section) is NOT covered: serde_json objects are IndexMap -> hashbrown",
+    ],
+    out=["GridSearchPlugin::process JSON handling", "flattening of object-valued choices"],
+    oracle="item j is the mixed-radix decoding of j (first axis fastest), exactly prod(n_i) items, then None forever (injective decoding => each combination exactly once)",
+)
+
+prop(
+    "C12",
+    runs=[dict(crate="core", quick=["c17::dq::"], thorough=["c17::dq::", "c17::dt::"]),
+          dict(crate="app", quick=["c12::q::"], thorough=["c12::q::"])],
+    functions=["MultiSet::from", "MultiSet::next", "InjectInputPlugin::process"],
+    bounds=("MultiSet: every degenerate shape (no axes, or at least one empty axis) up to 3 axes x 0..3 options (46 shapes; 13 in the quick tier), element values symbolic, 3 calls of next(); "
+            "inject plugin: query = Bool(any) or Number(any u64), every overwrite policy; unwind 4"),
+    assumptions=[
+        "desired behaviour of a degenerate product: no axes -> exactly one empty combination (the query passes through), an empty axis -> no combination; in both cases the iterator ends",
+        "std::fmt::format stubbed (error messages)",
+        "serde_json Null queries (turned into an object by IndexMut -> IndexMap allocation), every plugin that needs a JSON object lookup, and CompassApp::run itself (rayon, empty batch) are NOT covered",
+    ],
+    out=["CompassApp::run / run_batch", "grid search JSON handling", "vertex/edge matching plugins", "load balancer", "json_array_flatten helpers (300 s probe timeout)"],
+    oracle="no panic (Kani's panic / overflow / index checks), termination within the stated number of calls, error variant UnexpectedQueryStructure for non-object queries",
+)
+
+prop(
+    "C04",
+    runs=[dict(crate="app", quick=["c04::q::", "c04::qc::"], thorough=["c04::q::", "c04::qc::", "c04::t::"])],
+    functions=["VehicleRestriction::valid (6 kinds)", "CombinedFrontierModel::valid_frontier", "WeightUnit::convert", "DistanceUnit::convert"],
+    bounds=("vehicle quantity and limit: any finite f64 in 1e-3..1e6; the (kind, vehicle unit, limit unit) triple is concrete per harness: 4 length kinds x 25 unit pairs, total weight x 9, weight per axle x 9 x axles in {0,1,2,3,5} = 154 instances (33 quick); "
+            "combined model: 0..3 inner models each answering Ok(true) / Ok(false) / Err (symbolic), any edge, with and without previous edge; unwind 5"),
+    assumptions=[
+        "oracle = physical conversion factor (SI table in the harness); inside a band of 0.1 percent around equality either answer is accepted (the unit table's own tolerance, property C09)",
+        "inner models of the combined model are harness-defined implementations of the FrontierModel trait returning arbitrary answers",
+        "std::hash::RandomState::new stubbed (an EMPTY StateModel is constructed; no hashing happens)",
+        "RoadClassFrontierModel, TurnRestrictionFrontierModel, VehicleRestrictionFrontierModel (std HashSet / HashMap lookups in the app crate), EdgeCutFrontierModel and the search loop's consultation of the model for every candidate edge are NOT covered",
+    ],
+    out=["road-class / turn-restriction / per-edge restriction lookups", "the search loop", "JSON parsing of vehicle parameters and road classes"],
+    oracle="valid == (quantity * physical factor [/ axles] <= limit) outside the tolerance band; combined = conjunction with error propagation",
+)
